@@ -151,12 +151,22 @@ theorem ofRaw_ok (raw : Raw) (r : Requirement) (h : ofRaw raw = .ok r) :
 
 /-! ## `Dependency.create_from_pep_508` -/
 
+theorem authStep_err (proto : String) (user : Option String) (host r : List Char) (e : PyErr)
+    (h : authStep proto user host r = .error e) : e = .unmodelled := by
+  unfold authStep at h
+  simp only at h
+  repeat' split at h
+  all_goals first
+    | (cases h; done)
+    | (cases h; rfl)
+
 theorem parseAuthorityPath_err (proto : String) (s : List Char) (e : PyErr)
     (h : parseAuthorityPath proto s = .error e) : e = .unmodelled := by
   unfold parseAuthorityPath at h
   simp only at h
   repeat' split at h
   all_goals first
+    | exact authStep_err _ _ _ _ _ h
     | (cases h; done)
     | (cases h; rfl)
 
